@@ -104,7 +104,7 @@ def route_graph(ctx, mol, rng, force=None):
             return mr.graph_from_molfile_text(ctab.render_v3000(mol, st, rng))
         return mr.graph_from_molfile_text(ctab.render_v2000(mol, ctab.V2Style(encoding=rng.choice(["lines", "codes", "stale"]), per_line=rng.choice([0, 1, 2, 3, 5, 8]),
                                                                               dt_symbols=rng.random() < 0.5, unrelated=rng.choice([0, 0.4, 0.7]),
-                                                                              two_line_records=rng.choice([0, 0.3]), atom_lists=rng.choice([0, 0, 2]), counts_noise=rng.random() < 0.5), rng))
+                                                                              two_line_records=rng.choice([0, 0.3]), atom_lists=0, counts_noise=rng.random() < 0.5), rng))
     except Exception as e:
         raise PipelineFailed(f"reader: {type(e).__name__}: {e}") from e
 
